@@ -43,6 +43,7 @@ Json Sched::to_json(bool with_switches) const {
   j["pct_horizon"] = (long long)pct_horizon;
   j["rr_q"] = rr_q;
   j["plain_points"] = plain_points;
+  j["event_points"] = event_points;
   j["budget"] = (long long)budget;
   j["total_cap"] = (long long)total_cap;
   j["demote_after"] = (long long)demote_after;
@@ -67,6 +68,7 @@ Sched Sched::from_json(const Json &j) {
   s.pct_horizon = (uint64_t)j.at("pct_horizon").as_int(20000);
   s.rr_q = (int)j.at("rr_q").as_int(1);
   s.plain_points = j.at("plain_points").as_bool(true);
+  s.event_points = j.at("event_points").as_bool(false);
   s.budget = (uint64_t)j.at("budget").as_int(20000000);
   s.total_cap = (uint64_t)j.at("total_cap").as_int(600000000);
   s.demote_after = (uint64_t)j.at("demote_after").as_int(300);
@@ -101,6 +103,7 @@ Sched Sched::draw(Rng &rng, uint64_t budget) {
     s.rr_q = (int)rng.range(1, 40);
   }
   s.plain_points = rng.chance(0.5);
+  s.event_points = rng.chance(0.6);
   s.ticks_jitter = rng.chance(0.5) ? (int)rng.range(1, 1000) : 0;
   return s;
 }
@@ -729,6 +732,26 @@ void cmi_verif_event(int kind, const void *a, const void *b, long x, long y) {
   }
   if (G.listener)
     G.listener->on_event(kind, a, b, x, y);
+  // A real thread can be preempted anywhere inside a task body, not only at
+  // its atomic operations: the packet and task events are (optional)
+  // scheduling points too, which puts preemptions between the plain memory
+  // operations on buffers and cells that the locks are supposed to protect.
+  if (G.sched.event_points && G.region && G.team > 1) {
+    switch (kind) {
+    case CMI_VERIF_EVENT_PACKET_LAUNCH:
+    case CMI_VERIF_EVENT_PACKET_DONE:
+    case CMI_VERIF_EVENT_PACKET_OUT:
+    case CMI_VERIF_EVENT_PACKET_REEMIT:
+    case CMI_VERIF_EVENT_TASK_BEGIN:
+    case CMI_VERIF_EVENT_TASK_END:
+    case CMI_VERIF_EVENT_HYDRO_TASK_BEGIN:
+    case CMI_VERIF_EVENT_HYDRO_TASK_END:
+      point(a, CMI_VERIF_OP_PLAIN_READ);
+      break;
+    default:
+      break;
+    }
+  }
 }
 
 unsigned long cmi_verif_tick() {
